@@ -11,6 +11,20 @@ let () =
   reg "b64enc" (fun a -> match a with [s] -> hex_of_str (b64_encode (str_of_hex s)) | _ -> failwith "b64enc");
   reg "b64dec" (fun a -> match a with [s] -> hex_of_str (b64_decode (str_of_hex s)) | _ -> failwith "b64dec");
   reg "b64rt" (fun a -> match a with [s] -> hex_of_str (b64_decode (b64_encode (str_of_hex s))) | _ -> failwith "b64rt");
+  (* routeauth <regs> <method> <target> <auth value|NONE> <users> <realm> : handlers with auth index 0 are protected *)
+  reg "routeauth" (fun a -> match a with [regs; m; t; v; users; realm] ->
+      let hdrs = if v = "NONE" then [] else [(lc_authorization, str_of_hex v)] in
+      (match handle_request (build_table (Ops_router.parse_regs regs)) (str_of_hex m) (str_of_hex t) with
+       | DHandler (h, None, p) -> Printf.sprintf "H %d %s" (int_of_nat h) (Ops_router.show_params p)
+       | DHandler (h, Some _, p) ->
+         (match authenticate_route (str_of_hex realm) (parse_users users) hdrs with
+          | PRun -> Printf.sprintf "H %d %s" (int_of_nat h) (Ops_router.show_params p)
+          | PUnauthorised c -> "401 " ^ hex_of_str c
+          | PThrow -> "THROW")
+       | DNotFound -> "404"
+       | DNotAllowed allow -> "405 " ^ hex_of_str allow
+       | DThrow -> "THROW")
+    | _ -> failwith "routeauth");
   (* basic <users> <realm> <auth value | NONE> *)
   reg "basic" (fun a -> match a with [users; realm; v] ->
       let hdrs = if v = "NONE" then [] else [(lc_authorization, str_of_hex v)] in
